@@ -269,6 +269,8 @@ def family(t, tier):
                     sp = rle_block(t, base_n, [(True, True)])
                     _poke(sp, t, pos, v)
                     yield ("float", sp, {"mem": mem})
+        # (4b) present frames that are NaN in some component other than the deciding first one
+        yield from partial_frames(t)
         # (5) labels
         if t != R.T_PLATDATA:
             for lab in LABELS:
@@ -437,6 +439,31 @@ def family(t, tier):
             yield ("floatx", events([e, mk_event("d", 1, 2)]), opts0)
     else:
         raise ValueError(t)
+
+
+def partial_frames(t):
+    """A frame is present when its first component is a number; its other components may be NaN (a
+    marker seen with an unusable coordinate, a platform without torque reading).  Every non-first
+    component of the first / the last frame of a 3-frame item with a gap in the middle, alone and all
+    together, with two NaN bit patterns; one and two items."""
+    w = _width(t)
+    if w == 1:
+        return
+    nans = [F32X[2], F32X[3]]
+    for fr in (0, 2):
+        for nanv in nans:
+            for pos in list(range(1, w)) + ["all"]:
+                for items in (1, 2):
+                    sp = rle_block(t, 3, [(True, False, True)] * items, chans=[5, 1])
+                    for q in (range(1, w) if pos == "all" else [pos]):
+                        _poke(sp, t, fr * w + q, nanv)
+                    yield ("partial", sp, {})
+    # a track that consists of partial frames only
+    sp = rle_block(t, 2, [(True, True)])
+    for fr in (0, 1):
+        for q in range(1, w):
+            _poke(sp, t, fr * w + q, nans[0])
+    yield ("partial", sp, {})
 
 
 def _width(t):
